@@ -115,16 +115,83 @@ class _Scan(ast.NodeVisitor):
         self.generic_visit(node)
 
     # ---- the finitely many string constants an expression can evaluate to, or None ----------
-    # constants, conditional expressions, subscripts / .get of literal tables, and local (or
-    # module-level) names ALL of whose bindings in their scope are plain assignments of such
-    # expressions.  Anything else is "computed": fail closed.
-    def _str_values(self, e, depth=0):
+    # Constants, conditional expressions, literal tuples / lists / dicts, subscripts of such
+    # TABLES, and names that are bound ONLY by plain assignments of such expressions - in the
+    # function that reads them or at module level - and by nothing else anywhere in the module
+    # (no global / nonlocal declaration, no import / def / class / except / with / for / match /
+    # walrus / augmented binding, no parameter of the same name, no mutation of a table through
+    # the name).  Anything else is "computed": fail closed.
+    def _name_facts(self, name):
+        """(assign nodes with their scope nodes, True if any other binding / mutation of `name`
+        exists anywhere in the module)"""
+        assigns, other = [], False
+        scopes = [(self.module_node, None)]
+        while scopes:
+            scope, _ = scopes.pop()
+            body = scope.body if isinstance(scope.body, list) else [scope.body]
+            if not isinstance(scope, ast.Module) and hasattr(scope, "args"):
+                a = scope.args
+                params = [x.arg for x in list(a.posonlyargs) + list(a.args) + list(a.kwonlyargs)]
+                params += [x.arg for x in (a.vararg, a.kwarg) if x]
+                if name in params:
+                    other = True
+            stack = list(body)
+            while stack:
+                n = stack.pop()
+                if isinstance(n, (ast.FunctionDef, ast.AsyncFunctionDef, ast.ClassDef)):
+                    if n.name == name:
+                        other = True
+                    if isinstance(n, ast.ClassDef):
+                        # a class body is a scope of its own: any binding of the name there is "other"
+                        for m in ast.walk(n):
+                            if isinstance(m, ast.Name) and m.id == name and isinstance(m.ctx, (ast.Store, ast.Del)):
+                                other = True
+                        for m in n.body:
+                            if isinstance(m, (ast.FunctionDef, ast.AsyncFunctionDef)):
+                                scopes.append((m, None))
+                    else:
+                        scopes.append((n, None))
+                    continue
+                if isinstance(n, ast.Lambda):
+                    scopes.append((n, None))
+                    continue
+                if isinstance(n, (ast.Global, ast.Nonlocal)) and name in n.names:
+                    other = True
+                if isinstance(n, (ast.Import, ast.ImportFrom)):
+                    for al in n.names:
+                        if (al.asname or al.name.split(".")[0]) == name:
+                            other = True
+                if isinstance(n, ast.ExceptHandler) and n.name == name:
+                    other = True
+                if hasattr(ast, "MatchAs") and isinstance(n, (ast.MatchAs, ast.MatchStar)) and getattr(n, "name", None) == name:
+                    other = True
+                if hasattr(ast, "MatchMapping") and isinstance(n, ast.MatchMapping) and n.rest == name:
+                    other = True
+                if isinstance(n, ast.Assign) and len(n.targets) == 1 and isinstance(n.targets[0], ast.Name) \
+                        and n.targets[0].id == name:
+                    assigns.append((n, scope))
+                    stack.append(n.value)
+                    continue
+                if isinstance(n, ast.Name) and n.id == name and isinstance(n.ctx, (ast.Store, ast.Del)):
+                    other = True          # loop / with / walrus / tuple / augmented / annotated binding
+                # mutation of a table through the name: T[k] = ..., T[k] += ..., del T[k], T.append(...)
+                if isinstance(n, ast.Subscript) and isinstance(n.ctx, (ast.Store, ast.Del)) \
+                        and isinstance(n.value, ast.Name) and n.value.id == name:
+                    other = True
+                if isinstance(n, ast.Attribute) and isinstance(n.value, ast.Name) and n.value.id == name:
+                    other = True          # T.update(...), T.append(...), or any attribute access: not a plain table use
+                stack.extend(ast.iter_child_nodes(n))
+        return assigns, other
+
+    def _str_values(self, e, depth=0, table=False):
+        """table=True: the value is about to be subscripted - it must be a literal table (or a name
+        bound to one), never a string constant (slicing a string computes a new one)"""
         if depth > 6:
             return None
         if isinstance(e, ast.Constant):
-            return [e.value] if isinstance(e.value, str) else None
+            return [e.value] if isinstance(e.value, str) and not table else None
         if isinstance(e, ast.IfExp):
-            a, b = self._str_values(e.body, depth + 1), self._str_values(e.orelse, depth + 1)
+            a, b = self._str_values(e.body, depth + 1, table), self._str_values(e.orelse, depth + 1, table)
             return None if a is None or b is None else a + b
         if isinstance(e, (ast.Tuple, ast.List)):
             out = []
@@ -143,39 +210,28 @@ class _Scan(ast.NodeVisitor):
                 out += v
             return out
         if isinstance(e, ast.Subscript):
-            return self._str_values(e.value, depth + 1)
+            if isinstance(e.slice, ast.Slice):
+                return None
+            return self._str_values(e.value, depth + 1, True)
         if isinstance(e, ast.Name):
-            for scope in ([self.fnodes[-1]] if self.fnodes else []) + [self.module_node]:
-                if scope is None:
-                    continue
-                vals, bound_otherwise = [], False
-                stack = list(scope.body if isinstance(scope.body, list) else [scope.body])
-                while stack:
-                    n = stack.pop()
-                    if isinstance(n, (ast.FunctionDef, ast.AsyncFunctionDef, ast.ClassDef, ast.Lambda)):
-                        continue
-                    if isinstance(n, ast.Assign) and len(n.targets) == 1 and isinstance(n.targets[0], ast.Name) \
-                            and n.targets[0].id == e.id:
-                        v = self._str_values(n.value, depth + 1)
-                        if v is None:
-                            bound_otherwise = True
-                        else:
-                            vals += v
-                        continue
-                    if isinstance(n, ast.Name) and isinstance(n.ctx, (ast.Store, ast.Del)) and n.id == e.id:
-                        bound_otherwise = True       # loop variable, augmented / tuple assignment, with ... as
-                    stack.extend(ast.iter_child_nodes(n))
-                if scope is not self.module_node and hasattr(scope, "args"):
-                    a = scope.args
-                    params = [x.arg for x in list(a.posonlyargs) + list(a.args) + list(a.kwonlyargs)]
-                    params += [x.arg for x in (a.vararg, a.kwarg) if x]
-                    if e.id in params:
-                        bound_otherwise = True
-                if bound_otherwise:
+            if self.module_node is None:
+                return None
+            assigns, other = self._name_facts(e.id)
+            if other or not assigns:
+                return None
+            here = self.fnodes[-1] if self.fnodes else self.module_node
+            vals = []
+            for a, scope in assigns:
+                if scope is not here and scope is not self.module_node:
+                    return None           # bound in some other function: not this function's variable
+                v = self._str_values(a.value, depth + 1, table)
+                if v is None:
                     return None
-                if vals:
-                    return vals
-            return None
+                vals += v
+            local = [a for a, scope in assigns if scope is here and scope is not self.module_node]
+            if local and any(scope is self.module_node for _, scope in assigns):
+                return None               # shadowing: keep it simple, fail closed
+            return vals
         return None
 
     def _visit_func(self, node, name):
